@@ -29,9 +29,15 @@ The hypotheses `Scope` (H1: no cycle through two distinct tasks below the start 
 pairwise prefix-incomparable; H3: no task reads what it writes; refs of at least two steps with canonical
 keys; no injected fault) are exactly where the property is *false* of the pinned code (known findings D1:
 sibling cycles through a shared owner, D8: root-level computed keys), see `C01_partial_scope_needed`.
-In-place operators count as the assignment they reduce to (`inplaceCall`).  Function tasks, knobs, `load` and
-`register` are outside these theorems
-(correspondence only).
+In-place operators count as the assignment they reduce to (`inplaceCall`).  Function tasks are covered by
+`C01_set_value_function_tasks` and, over whole histories with `register` / `unregister`, by
+`C01_histories_function_tasks`; linear knobs (integer values) by `C01_knob_*` in their own scene.  Not covered by any
+theorem (correspondence and oracles only): a knob and an expression / function task triggered by the SAME assignment,
+`load` inside a C01 history, values other than ints and NaN (the model's value domain).
+
+**Which tree.**  The model transcribes `/repo` as it stands now: the pinned commit plus the `fix:` commits recorded in
+`/verif/KNOWN_FINDINGS.json` (status `fixed`).  Where a theorem below rests on repaired code — the repaired `unregister` behind `MInv`, the iterative DFS without recursion limit — it is false of
+the tree as first pinned; the witnesses are kept (`Index.pinned_unregister_stale`, defect D2/D3 in DESIGN.md).
 -/
 namespace Properties.C01
 open Store Push Index Manager
